@@ -698,3 +698,55 @@ def _walk_loop(f, lp):
         if t["k"] == "call":
             tails.add((f.callee(t) or "").rsplit("::", 1)[-1])
     return "pop" in tails or "pop_front" in tails or "clone_from" in tails
+
+
+@rule("R-BAND-ORDER", ["C08", "C15"])
+def r_band_order(cx):
+    """Gravsoft files hold the bands of a node in latitude, longitude(, height) order, the library works in longitude,
+    latitude(, height) order: normalize_gravsoft_grid_values exchanges the *first two* bands of every node. In the flat
+    value array of a grid with m bands that is `swap(i, i + 1)` for the i with i mod m = 0 (or `swap(i, i - 1)` for
+    i mod m = 1): the lower of the two positions exchanged is a multiple of m, and m is the band count of the branch."""
+    import guards
+    name = "grid::normalize_gravsoft_grid_values"
+    if not cx.f.has_fn(name):
+        cx.ob("R-BAND-ORDER", "anchor", False, "anchor-missing: %s" % name)
+        return
+    f = cx.f.fn(name)
+    n = 0
+    for bb, t in f.calls():
+        if not (f.callee(t) or "").endswith("<impl [T]>::swap") or f.innermost_loop(bb) is None:
+            continue
+        a = [mir.strip_refs(x) for x in f.arg_terms(bb)[1:]]
+        if len(a) != 2:
+            continue
+
+        def off(x, base):
+            if x == base:
+                return 0
+            if x[0] == "bin" and x[1] in ("Add", "Sub") and mir.strip_refs(x[2]) == base and is_const_num(x[3]):
+                return x[3][2] if x[1] == "Add" else -x[3][2]
+            return None
+        base = a[0] if a[0][0] != "bin" else mir.strip_refs(a[0][2])
+        o = [off(x, base) for x in a]
+        if None in o:
+            continue
+        res = bands = None
+        for at, tv in guards.branch_facts(f, bb):
+            at = mir.strip_refs(at)
+            if at[0] == "bin" and at[1] == "Eq" and tv and is_const_num(at[3]):
+                l = mir.strip_refs(at[2])
+                if l[0] == "bin" and l[1] == "Rem" and mir.strip_refs(l[2]) == base and is_const_num(l[3]):
+                    res = (l[3][2], at[3][2])
+                elif l[0] == "proj":
+                    bands = at[3][2]
+        if res is None:
+            continue
+        n += 1
+        m, r = res
+        ok = abs(o[0] - o[1]) == 1 and (r + min(o)) % m == 0 and (bands is None or bands == m)
+        cx.ob("R-BAND-ORDER", "swap%d" % (n - 1), ok,
+              "for %d-band grids the first two bands of every node are exchanged" % m if ok else
+              "normalize_gravsoft_grid_values exchanges positions i%+d and i%+d for i mod %d = %d%s: these are not the first "
+              "two bands (latitude, longitude) of a node - the bands end up in the wrong order" % (
+                  o[0], o[1], m, r, "" if bands in (None, m) else " in the branch for %d bands" % bands), cx.where(t["span"]))
+    cx.count("R-BAND-ORDER", "swaps", n)
